@@ -274,7 +274,7 @@ def run(rep: C.Report):
                         "the final upstream is stationary; dates of the simulated upstream change with content"]
     C.proof_step(rep, thorough=(rep.tier == "thorough"))
     rng = random.Random(rep.seed + 8)
-    n = 70 if rep.tier == "quick" else 3000
+    n = 70 if rep.tier == "quick" else 2000   # four replay ties per run: ~1.5 h
     sb = P.sandbox("vsb_c08_")
     found = False
     rows, mrows = [], []
